@@ -347,43 +347,62 @@ pub fn extract_equality_predicate<'a>(expr: &'a Expr<'a>) -> Option<(&'a str, &'
     }
 }
 
+/// Returns what is left of `predicate` once the index probe built from it has been
+/// applied. The probe enforces exactly one conjunct: the first `column = literal`
+/// equality on an index column (the one `extract_equality_predicate` picks). Every
+/// other conjunct, including further comparisons on the same column, stays in the
+/// residual filter.
 pub fn compute_residual_filter<'a>(
     arena: &'a Bump,
     predicate: &'a Expr<'a>,
     index_columns: &[String],
 ) -> Option<&'a Expr<'a>> {
-    match predicate {
-        Expr::BinaryOp { left, op, right } => match op {
-            BinaryOperator::And => {
-                let left_residual = compute_residual_filter(arena, left, index_columns);
-                let right_residual = compute_residual_filter(arena, right, index_columns);
+    let mut probe_consumed = false;
+    residual_without_probe(arena, predicate, index_columns, &mut probe_consumed)
+}
 
-                match (left_residual, right_residual) {
-                    (Some(l), Some(r)) => Some(arena.alloc(Expr::BinaryOp {
-                        left: l,
-                        op: BinaryOperator::And,
-                        right: r,
-                    })),
-                    (Some(l), None) => Some(l),
-                    (None, Some(r)) => Some(r),
-                    (None, None) => None,
-                }
+fn residual_without_probe<'a>(
+    arena: &'a Bump,
+    predicate: &'a Expr<'a>,
+    index_columns: &[String],
+    probe_consumed: &mut bool,
+) -> Option<&'a Expr<'a>> {
+    match predicate {
+        Expr::BinaryOp {
+            left,
+            op: BinaryOperator::And,
+            right,
+        } => {
+            let left_residual = residual_without_probe(arena, left, index_columns, probe_consumed);
+            let right_residual =
+                residual_without_probe(arena, right, index_columns, probe_consumed);
+
+            match (left_residual, right_residual) {
+                (Some(l), Some(r)) => Some(arena.alloc(Expr::BinaryOp {
+                    left: l,
+                    op: BinaryOperator::And,
+                    right: r,
+                })),
+                (Some(l), None) => Some(l),
+                (None, Some(r)) => Some(r),
+                (None, None) => None,
             }
-            BinaryOperator::Eq
-            | BinaryOperator::Lt
-            | BinaryOperator::LtEq
-            | BinaryOperator::Gt
-            | BinaryOperator::GtEq => {
-                if predicate_uses_index_column(predicate, index_columns) {
-                    None
-                } else {
-                    Some(predicate)
-                }
-            }
-            _ => Some(predicate),
-        },
-        Expr::Between { expr, .. } => {
-            if predicate_uses_index_column(expr, index_columns) {
+        }
+        Expr::BinaryOp {
+            left,
+            op: BinaryOperator::Eq,
+            right,
+        } if !*probe_consumed => {
+            let probe_column = match (left, right) {
+                (Expr::Column(col_ref), Expr::Literal(_))
+                | (Expr::Literal(_), Expr::Column(col_ref)) => Some(col_ref.column),
+                _ => None,
+            };
+            let is_probe = probe_column
+                .map(|col| index_columns.iter().any(|c| c.eq_ignore_ascii_case(col)))
+                .unwrap_or(false);
+            if is_probe {
+                *probe_consumed = true;
                 None
             } else {
                 Some(predicate)
